@@ -1,17 +1,2 @@
-(* GENERATED by tools/gen/g_probing.py from util/probing_hash_table.hh -- do not edit *)
-From Coq Require Import List NArith.
-Import ListNotations.
-Local Open Scope N_scope.
-
-Definition invalid_key : N := 0.
-Definition init_size : N := 5.
-Definition size_plus : N := 1.
-Definition mult_num : N := 14.
-Definition mult_den : N := 10.
-Definition thr_sub : N := 1.
-Definition thr_num : N := 75.
-Definition thr_den : N := 100.
-Definition grow_factor : N := 2.
-Definition mask_shl : N := 1.
-Definition mask_or : N := 1.
-Definition round_shifts : list N := [1; 2; 4; 8; 16; 32].
+(* translator failed: pattern for Power2Mod::Double not found in probing_hash_table.hh *)
+Definition translator_failed : True := 0.
